@@ -50,6 +50,11 @@ pub struct Cfg {
     /// Percentage of selector lists (time spans, weekday / week / year / month-day ranges of one rule) that are
     /// long: 4-65 elements (bracketing 8 / 16 / 32 / 64) repeating a motif of 1-4 generated elements.
     pub long_lists_pct: u32,
+    /// Percentage of expressions made of *full-day* rules only (year / month / date / week selectors and modifiers, no
+    /// weekday and no time selector): the rules on which the interval iterator jumps over many days at once.
+    pub jumpable_pct: u32,
+    /// (internal) the expression being generated is restricted to full-day rules
+    pub jumpable: bool,
     /// Percentage of expressions of 2-6 rules drawn (with repetition, under varying operators)
     /// from a pool of 1-3 generated rules: the same rule twice in a row, `A, A; A`, `A; B; A`.
     pub repeat_pct: u32,
@@ -86,6 +91,8 @@ impl Default for Cfg {
             max_day_offset: 10,
             long_pct: 0,
             long_lists_pct: 1,
+            jumpable_pct: 0,
+            jumpable: false,
             repeat_pct: 0,
             relaxed: false,
             single_date_max_offset: 0,
@@ -977,6 +984,7 @@ fn gen_rule(ch: &mut Choices, cfg: &Cfg, out: &mut String, operator: RuleOperato
     let start_len = out.len();
 
     let shape = if cfg.force_bounded_year { 0 } else { ch.weighted(&[86, 6, 4, 4]) };
+    let shape = if cfg.jumpable && shape == 2 { 0 } else { shape };
     let mut glue_modifier_ok = false; // the selector text ends with a time selector
     match shape {
         // 24/7
@@ -1004,14 +1012,25 @@ fn gen_rule(ch: &mut Choices, cfg: &Cfg, out: &mut String, operator: RuleOperato
         3 => {}
         // general case
         _ => {
-            let (p_year, p_md, p_week, p_wd, p_time) = if cfg.dense { (6, 15, 6, 60, 85) } else { (18, 35, 14, 50, 75) };
+            let (p_year, p_md, p_week, p_wd, p_time) = if cfg.jumpable {
+                (30, 55, 20, 0, 0)
+            } else if cfg.dense {
+                (6, 15, 6, 60, 85)
+            } else {
+                (18, 35, 14, 50, 75)
+            };
             let has_year = cfg.force_bounded_year || ch.chance(p_year);
             let has_md = ch.chance(p_md);
             let has_week = ch.chance(p_week);
             let mut has_wd = ch.chance(p_wd);
             let has_time = ch.chance(p_time);
+            let mut has_md = has_md;
             if !(has_year || has_md || has_week || has_wd || has_time) {
-                has_wd = true;
+                if cfg.jumpable {
+                    has_md = true;
+                } else {
+                    has_wd = true;
+                }
             }
             let year_mark = out.len();
             if has_year {
@@ -1157,6 +1176,13 @@ fn gen_rule(ch: &mut Choices, cfg: &Cfg, out: &mut String, operator: RuleOperato
 
 /// Generate an expression and its text.
 pub fn gen_expr(ch: &mut Choices, cfg: &Cfg) -> (OpeningHoursExpression, String) {
+    let jump_cfg;
+    let cfg = if cfg.jumpable_pct > 0 && !cfg.jumpable && ch.chance(cfg.jumpable_pct) {
+        jump_cfg = Cfg { jumpable: true, ..cfg.clone() };
+        &jump_cfg
+    } else {
+        cfg
+    };
     if cfg.long_pct > 0 && ch.chance(cfg.long_pct) {
         return gen_long_expr(ch, cfg, false);
     }
